@@ -27,7 +27,7 @@ def sparkSucc (b : Built Ty) (n : Ty) : List (PRel Ty SparkTy) :=
                 guard := fun dt => sparkContains e.dst dt, xform := id })
 
 def sparkDetect (b : Built Ty) (dt : SparkTy) : List Ty :=
-  (ptraverse (sparkSucc b) b.nodes.length b.root dt).2
+  (ptraverse (sparkSucc b) 64 b.root dt).2
 
 def sparkDetectType (b : Built Ty) (dt : SparkTy) : Ty :=
   (sparkDetect b dt).getLast?.getD b.root
